@@ -212,18 +212,19 @@ func trunc(s string, n int) string {
 
 // ---------------------------------------------------------------- ground truth + oracle
 
-type window struct{ i int; x, y string } // statements i..i+3: ct new_x ; ? ; dt x ; rt new_x -> y
+type window struct{ i int; x string } // statements i..i+3: ct new_x ; copy (no schema change) ; dt x ; rt new_x -> x
 
-// windows finds, syntactically and greedily from the left (as the pre-pass walks),
-// the 4-statement groups that look like the documented rebuild idiom.
-func windows(ss []pst) []window {
+// windows finds, greedily from the left (as the pre-pass walks), the 4-statement groups that are the
+// documented rebuild idiom: CREATE new_x, a statement that leaves the catalogue unchanged, DROP x,
+// RENAME new_x TO x.  st[j] is the catalogue before statement j.
+func windows(ss []pst, st []state) []window {
 	var ws []window
 	for i := 0; i+3 < len(ss); i++ {
 		a, c, d := ss[i].s, ss[i+2].s, ss[i+3].s
 		if a.k == "ct" && strings.HasPrefix(a.t, "new_") {
 			x := strings.TrimPrefix(a.t, "new_")
-			if c.k == "dt" && c.t == x && d.k == "rt" && d.t == a.t && strings.HasPrefix(d.u, x) {
-				ws = append(ws, window{i, x, d.u})
+			if c.k == "dt" && c.t == x && d.k == "rt" && d.t == a.t && d.u == x && sameCatalogue(st[i+1], st[i+2]) {
+				ws = append(ws, window{i, x})
 				i += 3
 			}
 		}
@@ -349,7 +350,7 @@ func oracle(w *out.W, c *tcase, r *result) {
 		st := ft.t.states
 		nst := len(f.stmts)
 		pre, post := st[0], st[nst]
-		ws := windows(f.stmts)
+		ws := windows(f.stmts, st)
 		winOf := func(j int) *window {
 			for a := range ws {
 				if ws[a].i <= j && j <= ws[a].i+3 {
@@ -376,23 +377,33 @@ func oracle(w *out.W, c *tcase, r *result) {
 			}
 			return false
 		}
-		tagsFor := func(js []int) []string {
-			var tags []string
-			if len(js) >= 2 {
-				tags = append(tags, "readded")
+		// the only known cause of a missed drop: the same name is removed more than once in the file
+		tagsFor := func(removals int) string {
+			if removals >= 2 {
+				return "readded"
 			}
-			for _, j := range js {
-				if wd := winOf(j); wd != nil {
-					if j == wd.i+1 {
-						tags = append(tags, "hidden")
-					}
-					if j == wd.i+2 && wd.x != wd.y {
-						tags = append(tags, "prefix-rename")
-					}
-				}
+			return ""
+		}
+		// logical steps: a statement, or a whole rebuild group
+		type unit struct{ lo, hi int }
+		var units []unit
+		for j := 0; j < nst; j++ {
+			if wd := winOf(j); wd != nil && wd.i == j {
+				units = append(units, unit{j, j + 3})
+				j += 3
+				continue
 			}
-			sort.Strings(tags)
-			return uniq(tags)
+			units = append(units, unit{j, j})
+		}
+		unitPos := func(u unit) map[int]bool {
+			m := map[int]bool{}
+			for j := u.lo; j <= u.hi; j++ {
+				m[f.stmts[j].pos] = true
+			}
+			if k == featStart && featStart == 0 && nst > 10 {
+				m[0] = true
+			}
+			return m
 		}
 		sql := func() string {
 			var q []string
@@ -427,55 +438,79 @@ func oracle(w *out.W, c *tcase, r *result) {
 			}
 		}
 		required := false
-		// completeness: tables
+		_ = post
+		// completeness: the FIRST step that removes a table name present since before the file must carry DS102
+		// (the name may come back later in the file: the data is gone all the same)
 		for _, t := range pre {
-			if post.find(t.name) >= 0 {
+			first, removals := -1, 0
+			for ui, u := range units {
+				if st[u.lo].find(t.name) >= 0 && st[u.hi+1].find(t.name) < 0 {
+					removals++
+					if first < 0 {
+						first = ui
+					}
+				}
+			}
+			if first < 0 {
 				continue
 			}
 			required = true
-			var js []int
-			found := false
-			for j := 0; j < nst; j++ {
-				if st[j].find(t.name) >= 0 && st[j+1].find(t.name) < 0 {
-					js = append(js, j)
-					if hasDiag("DS102", t.name, accept(j)) {
-						found = true
-					}
-				}
-			}
-			if !found {
-				w.Violation(c.id, "complete-table", fmt.Sprintf("file %s: table %s existed before the file and not after it, no DS102 on a statement dropping it; got %v tags=[%s] sql: %s",
-					f.name, t.name, fo.diags, strings.Join(tagsFor(js), ","), sql()))
+			if !hasDiag("DS102", t.name, unitPos(units[first])) {
+				w.Violation(c.id, "complete-table", fmt.Sprintf("file %s: statement %d drops table %s, which existed before the file, and carries no DS102; got %v tags=[%s] sql: %s",
+					f.name, units[first].lo+1, t.name, fo.diags, tagsFor(removals), sql()))
 			}
 		}
-		// completeness: non-virtual columns of surviving tables
+		// ... and the first step that removes a column present since before the file (non-virtual when dropped)
+		// must carry DS103 naming it, or DS102 naming its table when the whole table goes
 		for _, t := range pre {
-			pi := post.find(t.name)
-			if pi < 0 {
-				continue
-			}
-			for _, cn := range colNames(t, true) {
-				if post[pi].col(cn) >= 0 {
-					continue
-				}
-				required = true
-				var js []int
-				found := false
-				for j := 0; j < nst; j++ {
-					a, b := st[j].find(t.name), st[j+1].find(t.name)
-					if a < 0 || st[j][a].col(cn) < 0 {
-						continue
+			for _, c0 := range t.cols {
+				cn := c0.name
+				present := func(s state) (bool, bool) { // column present, virtual
+					a := s.find(t.name)
+					if a < 0 {
+						return false, false
 					}
-					if b < 0 || st[j+1][b].col(cn) < 0 {
-						js = append(js, j)
-						if hasDiag("DS102", t.name, accept(j)) || hasDiag("DS103", cn, accept(j)) {
-							found = true
+					ci := s[a].col(cn)
+					if ci < 0 {
+						return false, false
+					}
+					return true, s[a].cols[ci].virt
+				}
+				first, removals := -1, 0
+				for ui, u := range units {
+					pb, _ := present(st[u.lo])
+					pa, _ := present(st[u.hi+1])
+					if pb && !pa {
+						removals++
+						if first < 0 {
+							first = ui
 						}
 					}
 				}
-				if !found {
-					w.Violation(c.id, "complete-column", fmt.Sprintf("file %s: column %s.%s existed before the file and not after it, no DS103/DS102 on a statement dropping it; got %v tags=[%s] sql: %s",
-						f.name, t.name, cn, fo.diags, strings.Join(tagsFor(js), ","), sql()))
+				if first < 0 {
+					continue
+				}
+				u := units[first]
+				if _, virt := present(st[u.lo]); virt {
+					continue
+				}
+				required = true
+				ok := false
+				if st[u.hi+1].find(t.name) < 0 {
+					ok = hasDiag("DS102", t.name, unitPos(u))
+					// the expected diagnostic is the table's: the cause tag is about the table name
+					removals = 0
+					for _, u2 := range units {
+						if st[u2.lo].find(t.name) >= 0 && st[u2.hi+1].find(t.name) < 0 {
+							removals++
+						}
+					}
+				} else {
+					ok = hasDiag("DS103", cn, unitPos(u))
+				}
+				if !ok {
+					w.Violation(c.id, "complete-column", fmt.Sprintf("file %s: statement %d drops column %s.%s, which existed before the file, and carries no DS103 (DS102 if the table goes); got %v tags=[%s] sql: %s",
+						f.name, u.lo+1, t.name, cn, fo.diags, tagsFor(removals), sql()))
 				}
 			}
 		}
@@ -556,13 +591,7 @@ func diagTags(st []state, ws []window, nst int, d diagObs) []string {
 		if len(js) >= 2 {
 			tags = append(tags, "recreated")
 		}
-		for _, j := range js {
-			for _, wd := range ws {
-				if j == wd.i+1 {
-					tags = append(tags, "hidden")
-				}
-			}
-		}
+		_ = js
 	}
 	sort.Strings(tags)
 	return uniq(tags)
